@@ -1,5 +1,10 @@
 package props
 
+import "testing"
+
+// curT is the worker's testing.T (synctest bubbles need one).
+var curT *testing.T
+
 // Spec tells a worker process what to do (file named by VERIF_SPEC).
 type Spec struct {
 	Mode         string `json:"mode"` // explore | replay | shrink
@@ -29,20 +34,21 @@ type ViolRec struct {
 
 // Result is what a worker reports.
 type Result struct {
-	ID          int            `json:"id"`
-	Runs        int            `json:"runs"`
-	Evals       int            `json:"evals"`
-	Distinct    []uint64       `json:"distinct"`
-	Interleaved []uint64       `json:"interleaved"`
-	Probes      map[string]int `json:"probes"`
-	Faults      map[string]int `json:"faults"`
-	Violations  []ViolRec      `json:"violations"`
-	OtherProps  map[string]int `json:"other_props"` // violations seen that belong to other properties (not reported by this check)
-	HarnessErrs []string       `json:"harness_errs"`
-	Samples     []any          `json:"samples"`
-	SimTimeNS   int64          `json:"sim_time_ns"`
-	Decisions   int            `json:"decisions"`
-	WallS       float64        `json:"wall_s"`
-	Reproduced  bool           `json:"reproduced"`
-	ShrinkRuns  int            `json:"shrink_runs"`
+	ID          int               `json:"id"`
+	Runs        int               `json:"runs"`
+	Evals       int               `json:"evals"`
+	Distinct    []uint64          `json:"distinct"`
+	Interleaved []uint64          `json:"interleaved"`
+	Probes      map[string]int    `json:"probes"`
+	Faults      map[string]int    `json:"faults"`
+	Violations  []ViolRec         `json:"violations"`
+	OtherProps  map[string]int    `json:"other_props"` // violations seen that belong to other properties (not reported by this check)
+	HarnessErrs []string          `json:"harness_errs"`
+	Samples     []any             `json:"samples"`
+	SimTimeNS   int64             `json:"sim_time_ns"`
+	Decisions   int               `json:"decisions"`
+	WallS       float64           `json:"wall_s"`
+	Reproduced  bool              `json:"reproduced"`
+	Digests     map[string]uint64 `json:"digests,omitempty"` // run -> digest of everything observable (determinism self-test)
+	ShrinkRuns  int               `json:"shrink_runs"`
 }
